@@ -11,6 +11,7 @@ import re
 import shutil
 import subprocess
 import tempfile
+import time
 
 REPO = os.environ.get("VERIF_REPO", "/repo")
 VERIF = os.path.dirname(os.path.dirname(os.path.dirname(os.path.abspath(__file__))))
@@ -20,7 +21,9 @@ TLS_SHIM = r'''
 #[doc(hidden)]
 #[allow(missing_docs, missing_debug_implementations, unreachable_pub, dead_code)]
 pub mod __verif_tls {
-    pub struct Key<T> { pub val: T }
+    // `tag` points at a string unique to the static, so that its initial bytes equal no constant's (Kani 0.68 would
+    // otherwise compile an equal-bytes constant as a read of this -- mutable -- static; see lib/vlib/aliascheck.py)
+    pub struct Key<T> { pub tag: &'static str, pub val: T }
     unsafe impl<T> Sync for Key<T> {}
     impl<T> Key<T> {
         pub fn with<R>(&'static self, f: impl FnOnce(&T) -> R) -> R { f(&self.val) }
@@ -31,10 +34,10 @@ pub mod __verif_tls {
 #[allow(unused_macros)]
 macro_rules! thread_local {
     ($(#[$a:meta])* $v:vis static $N:ident : $T:ty = const $init:block $(;)?) => {
-        $(#[$a])* $v static $N: $crate::__verif_tls::Key<$T> = $crate::__verif_tls::Key { val: $init };
+        $(#[$a])* $v static $N: $crate::__verif_tls::Key<$T> = $crate::__verif_tls::Key { tag: concat!("verif-tls:", module_path!(), "::", stringify!($N)), val: $init };
     };
     ($(#[$a:meta])* $v:vis static $N:ident : $T:ty = $init:expr $(;)?) => {
-        $(#[$a])* $v static $N: $crate::__verif_tls::Key<$T> = $crate::__verif_tls::Key { val: $init };
+        $(#[$a])* $v static $N: $crate::__verif_tls::Key<$T> = $crate::__verif_tls::Key { tag: concat!("verif-tls:", module_path!(), "::", stringify!($N)), val: $init };
     };
 }
 '''
@@ -114,9 +117,34 @@ def find_matching_brace(text, open_idx):
 
 
 class Overlay:
-    def __init__(self, tag):
+    def __init__(self, tag, salt=0):
+        # The overlay lives at a FIXED path per (property, salt): cargo derives the crate hash from the path, Kani orders
+        # code generation by item fingerprints that include the crate hash, and the constant/static aliasing defect of
+        # Kani 0.68 (aliascheck.py) depends on that order.  A fixed path makes a run reproducible; `salt` selects another
+        # order when the alias scan finds a hazardous aliasing.  A lock file serialises concurrent runs of one property.
+        import fcntl
         self.tag = tag
-        self.root = tempfile.mkdtemp(prefix="verif-ov-%s-" % tag, dir=os.environ.get("VERIF_SCRATCH", "/tmp"))
+        scratch = os.environ.get("VERIF_SCRATCH", "/tmp")
+        self.root = os.path.join(scratch, "verif-ov-%s-s%d" % (tag, salt))
+        self._lockf = open(self.root + ".lock", "w")
+        try:
+            fcntl.flock(self._lockf, fcntl.LOCK_EX | fcntl.LOCK_NB)
+        except OSError:
+            t0 = time.time()
+            while True:
+                try:
+                    fcntl.flock(self._lockf, fcntl.LOCK_EX | fcntl.LOCK_NB)
+                    break
+                except OSError:
+                    if time.time() - t0 > 7200:
+                        self._lockf.close()
+                        self._lockf = None
+                        self.root = tempfile.mkdtemp(prefix="verif-ov-%s-" % tag, dir=scratch)
+                        break
+                    time.sleep(5)
+        if self._lockf is not None:
+            shutil.rmtree(self.root, ignore_errors=True)
+            os.makedirs(self.root)
         self.ws = os.path.join(self.root, "ws")
         self.log = []
         subprocess.run(
@@ -132,6 +160,12 @@ class Overlay:
 
     def cleanup(self):
         shutil.rmtree(self.root, ignore_errors=True)
+        self.unlock()
+
+    def unlock(self):
+        if getattr(self, "_lockf", None) is not None:
+            self._lockf.close()   # the (empty) lock file stays: unlinking it would let two holders coexist
+            self._lockf = None
 
     # ---- helpers
     def path(self, rel):
